@@ -476,6 +476,11 @@ def r_C14inst(root):
         r1 = tryc(ga, o, "name"); r2 = tryc(ga, o, "__dict__"); r3 = tryc(sa, o, "extra", 5); st3 = col.get("extra"); r4 = tryc(da, o, "extra"); st4 = "extra" in col
         r5 = tryc(ga, o2, "real"); r6 = tryc(sa, o2, "more", 1); r7 = tryc(ga, o, "missing"); r8 = tryc(ga, o, "parent"); r9 = tryc(ga, o2, "parent")
         okm = r8 == ("ret", "the container") and r9 == ("ret", None) and r1 == ("ret", "n1") and r2[0] == "ret" and r2[1] is col and r3[0] == "ret" and st3 == 5 and r4[0] == "ret" and not st4 and "extra" not in o.own and r5 == ("ret", "r") and r6[0] == "ret" and o2.own.get("more") == 1 and r7[0] == "raise"
+        rp1 = tryc(sa, o, "_tx_position", 0); rp2 = tryc(sa, o, "_tx_position_end", 17); rp3 = tryc(ga, o, "_tx_position")
+        okpos = rp1[0] == "ret" and rp2[0] == "ret" and col.get("_tx_position") == 0 and col.get("_tx_position_end") == 17 and "_tx_position" not in o.own and "_tx_position_end" not in o.own and rp3 == ("ret", 0)
+        for pr_ in ("C14", "C34", "C06"):
+            inst += 1; ob(pr_, "C14.p", M, W, "the span of an object under construction is collected like every other attribute", okpos)
+            if not okpos: out.append(Finding(pr_, "C14.p", M, W, "_tx_position / _tx_position_end through the installed __setattr__", "while a model is loading, setting _tx_position=0 and _tx_position_end=17 on an object of a user class %s, the collected attributes hold %r / %r and the object itself %s; documented: every attribute set during construction - the span too - is collected for the object (a user class with __slots__ or a __setattr__ of its own cannot hold it before its constructor has run) and read back from there" % ("completes" if rp1[0] == rp2[0] == "ret" else "raises", col.get("_tx_position"), col.get("_tx_position_end"), "has them in its own __dict__" if "_tx_position" in o.own else "does not have them")))
         rep(okm, "C14.p", "the installed attribute methods read, list, write and delete the attributes collected for an object under construction",
             "while a model is loading (the class's storage re-bound after the methods were installed; the class has a class-level default parent=None), for an object with the collected attributes {name, kids, parent}: reading parent gives %s, name gives %s, __dict__ gives %s, setting / deleting an attribute %s; an object of the class that is not under construction reads %s, and a missing attribute %s; documented: reads and __dict__ answer from the collected attributes (scope providers enumerate obj.__dict__), writes and deletes go to the collected attributes, other objects behave normally, a missing attribute is an AttributeError; a collected attribute wins over a class-level default of the same name" % (r8, r1, "the collected attributes" if r2[0] == "ret" and r2[1] is col else r2, "is stored / removed there" if st3 == 5 and not st4 else "is not reflected in the collected attributes", r5, "raises " + r7[1] if r7[0] == "raise" else "gives %r" % (r7[1],)))
     else: rep(False, "C14.p", "attribute methods installed", "after _replace_user_attr_methods the user class has no callable __getattribute__ / __setattr__ / __delattr__ of the loader (%s)" % (e1 or "missing"))
